@@ -174,6 +174,7 @@ class Run:
         self.stop = False
         self.extra_props = []
         self.db = self.open()
+        self.old_handles = {m: self.db.measurement(m) for m in ("m0", "m1", "zz")}  # kept across every later operation (resets, reindex)
 
     def open(self):
         st, auto = self.cfg
@@ -347,6 +348,7 @@ class Run:
                 if self.cfg[0] == "csv":
                     db.close()
                     self.db = db = self.open()
+                    self.old_handles = {m: db.measurement(m) for m in ("m0", "m1", "zz")}
             elif kind == "len":
                 len(db)
             else:
@@ -438,6 +440,10 @@ class Run:
                         h = db.measurement(m)
                         if h.count(q) != len(exp) or [pkey(p) for p in h.search(q, sorted=False)] != [pkey(p) for p in exp] or h.contains(q) != bool(exp):
                             self.note(["C10"], "Measurement(%s) read [%s] differs from the filtered database" % (m, tag))
+                        hg = h.get(q)
+                        if h.select(("time", "measurement", "tags.a", "fields.p"), q) != [(p.time, p.measurement, p.tags.get("a"), p.fields.get("p")) for p in exp] \
+                                or h.select("fields.p", q) != [p.fields.get("p") for p in exp] or (hg is None) != (not exp) or (hg is not None and pkey(hg) != pkey(exp[0])):
+                            self.note(["C10"], "Measurement(%s) select/get [%s] differs from the filtered database" % (m, tag))
                 except Exception as e:
                     self.note(["C01", "C09"], "read[%s] raises %s" % (tag, type(e).__name__), str(e))
         # getters
@@ -476,6 +482,14 @@ class Run:
                         self.note(["C10"], "Measurement(%s) getters differ from the filtered database" % m)
             except Exception as ex:
                 self.note(["C07"], "getter(%s) raises %s" % (m, type(ex).__name__), str(ex))
+        # handles obtained when the database was opened must keep behaving as the database restricted to their name
+        for m, h in self.old_handles.items():
+            sub = [p for p in model if p.measurement == m]
+            try:
+                if len(h) != len(sub) or [pkey(p) for p in h] != [pkey(p) for p in sub] or h.count(parse_query("M.test")[0]) != len(sub) or len(h.index) != len(db.index) or h.storage is not db.storage:
+                    self.note(["C10"], "a Measurement(%s) handle obtained earlier no longer agrees with the database: len %d, expected %d" % (m, len(h), len(sub)))
+            except Exception as ex:
+                self.note(["C10"], "earlier Measurement(%s) handle raises %s" % (m, type(ex).__name__), str(ex))
         # the handle for the (valid) name "" must be restricted like any other
         try:
             he = db.measurement("")
